@@ -28,6 +28,7 @@ Inductive mact :=
 | AAddTarget (k : mkey)      (* self.map.by_target[<k> or None].add(self) *)
 | ASelfSet (k v : str)       (* self['<k>'] = '<v>': the whole of __setitem__ again *)
 | AStoreKey (v : str)        (* self._keys[key] = '<v>': a direct store under the spelling just used *)
+| AStoreKeyOrig (dflt : str) (* self._keys[key] = orig_val or '<dflt>': the previous value is put back directly (round 4) *)
 | ARaise (x : mexn).
 Inductive mprog := MSkip | MSeq (a b : mprog) | MIf (c : mcond) (a b : mprog) | MAct (a : mact).
 
@@ -68,6 +69,7 @@ Section maint.
     | AAddTarget k => (upd_target (ix_add (or_none (mkey_val k orig v)) e) st, 0)
     | ASelfSet k' v' => rec e k' v' st
     | AStoreKey v' => (with_keys e (kv_set fold key v' (keys_of st e)) st, 0)
+    | AStoreKeyOrig d => (with_keys e (kv_set fold key (if decide (orig = []) then d else orig) (keys_of st e)) st, 0)
     | ARaise x => (st, exn_code x)
     end.
 
